@@ -97,6 +97,13 @@ class ObjectDomain(EffectDomain):
             found = [s_ for s_ in c.node.body if isinstance(s_, (ast.Assign, ast.AnnAssign)) and any(
                 isinstance(t, ast.Name) and t.id == name for t in (s_.targets if isinstance(s_, ast.Assign) else [s_.target]))]
             if len(found) == 1 and found[0].value is not None:
+                filled = [s_ for s_ in c.node.body if isinstance(s_, ast.Assign) and len(s_.targets) == 1 and isinstance(s_.targets[0], ast.Subscript)
+                          and isinstance(s_.targets[0].value, ast.Name) and s_.targets[0].value.id == name]
+                if filled and isinstance(found[0].value, ast.Dict) and all(isinstance(s_.targets[0].slice, ast.Constant) for s_ in filled):
+                    # a table declared in the class body and filled there entry by entry: table = {}; table[k] = v; ...
+                    keys = list(found[0].value.keys) + [s_.targets[0].slice for s_ in filled]
+                    values = list(found[0].value.values) + [s_.value for s_ in filled]
+                    return c, ast.copy_location(ast.Dict(keys=keys, values=values), found[0].value)
                 return c, found[0].value
             if found:
                 return None
@@ -161,6 +168,12 @@ class ObjectDomain(EffectDomain):
             if st.has(fr.local(chain[0])) or chain[0] in self.attrs:
                 return None
             return self._module_table(interp, chain[0], st, fr)
+        if len(chain) == 2 and not st.has(fr.local(chain[0])) and chain[0] not in self.attrs:
+            ci = self._class_of_expr(ast.Name(id=chain[0], ctx=ast.Load()), fr)
+            if ci is not None and self._method(ci, chain[1]) is None:
+                got = self._class_attr_expr(ci, chain[1])
+                if got is not None:
+                    return self._eval_class_expr(interp, got[0], got[1], st, fr)   # ClassName.table
         if len(chain) == 2 and chain[0] in ("str", "bytes") and chain[1] in self.PURE_STR_METHODS and not st.has(fr.local(chain[0])):
             return [val(("strmethod", chain[1]), st)]   # str.strip & co. as functions: the method applied to their first argument
         if len(chain) == 2 and chain[1] in self.SET_METHODS and st.has(fr.local(chain[0])):
